@@ -106,6 +106,16 @@ def check(ctx: Ctx) -> str:
     s = ast.unparse(eb.node)
     ctx.check("if size <= 1:" in s and "partial(next, self._buffered_generator(size))" in s, "enable_buffering", "environment:TemplateStream.enable_buffering", "buffer size", "buffering needs size > 1 and must iterate _buffered_generator(size)", eb.loc())
 
+    # the requested size takes effect on every call: the chunking iterator is installed on each
+    # path that survives the size check (not only when the stream was unbuffered before)
+    inst = [a for a in ast.walk(eb.node) if isinstance(a, ast.Assign) and ast.unparse(a.targets[0]) == "self._next" and "_buffered_generator(size)" in ast.unparse(a.value)]
+    cond = [at for a in inst for at in astq.guard_atoms(eb.node, a) if at[0] not in ("size <= 1", "size > 1", "size < 2", "size >= 2")]
+    ctx.check(len(inst) == 1 and not cond, "enable_buffering:always", "environment:TemplateStream.enable_buffering", f"chunking iterator installed only under {cond}",
+              f"enable_buffering(size) installs `partial(next, self._buffered_generator(size))` only under {cond}: a second call with another size is ignored and the chunks keep combining the old number of pieces", eb.loc())
+    db = repo.func("environment:TemplateStream.disable_buffering")
+    inst = [a for a in ast.walk(db.node) if isinstance(a, ast.Assign) and ast.unparse(a.targets[0]) == "self._next" and ast.unparse(a.value) == "partial(next, self._gen)"]
+    ctx.check(len(inst) == 1 and not astq.guard_atoms(db.node, inst[0]), "disable_buffering:always", "environment:TemplateStream.disable_buffering", "direct iterator restored", "disable_buffering must restore partial(next, self._gen) unconditionally", db.loc())
+
     ctx.rule("R3", "dump writes every item of the stream, encoded when an encoding is given")
     dp = repo.func("environment:TemplateStream.dump")
     s = ast.unparse(dp.node)
